@@ -218,6 +218,36 @@ func LexGrammar(o LexOpts) *rapid.Generator[*gr.Grammar] {
 		for i := 0; i < nIgn; i++ {
 			mk(fmt.Sprintf("!ig%d", i), gr.DIgn)
 		}
+		// two tokens with the same language, one written with regular definitions
+		// and one with the definitions expanded in place: only the declaration
+		// order may decide which one wins
+		if rapid.IntRange(0, 4).Draw(t, "twinToken") == 0 {
+			var withRef []int
+			for i, d := range defs {
+				if d.Kind != gr.DTok {
+					continue
+				}
+				has := false
+				d.Pat.Walk(func(p *gr.Pat) {
+					if p.Kind == gr.PRef {
+						has = true
+					}
+				})
+				if has {
+					withRef = append(withRef, i)
+				}
+			}
+			if len(withRef) > 0 {
+				src := defs[rapid.SampledFrom(withRef).Draw(t, "twinOf")]
+				regs := map[string]*gr.Pat{}
+				for _, d := range defs {
+					if d.Kind == gr.DReg {
+						regs[d.Name] = d.Pat
+					}
+				}
+				defs = append(defs, gr.LexDef{Name: fmt.Sprintf("tk%d", nTok), Kind: gr.DTok, Pat: expandRefs(src.Pat, regs, 0)})
+			}
+		}
 		// declaration order matters for priority: shuffle
 		perm := rapid.Permutation(defs).Draw(t, "order")
 		g.Lex = perm
@@ -277,6 +307,22 @@ func LexGrammar(o LexOpts) *rapid.Generator[*gr.Grammar] {
 		}
 		return g
 	})
+}
+
+// expandRefs returns p with every regular-definition reference replaced by a
+// group holding (a copy of) the definition's body.
+func expandRefs(p *gr.Pat, regs map[string]*gr.Pat, depth int) *gr.Pat {
+	if p.Kind == gr.PRef && depth < 16 {
+		if b, ok := regs[p.Ref]; ok {
+			return gr.Grp(expandRefs(b, regs, depth+1))
+		}
+	}
+	q := *p
+	q.Subs = nil
+	for _, s := range p.Subs {
+		q.Subs = append(q.Subs, expandRefs(s, regs, depth))
+	}
+	return &q
 }
 
 func flatten(p *gr.Pat) *gr.Pat {
